@@ -764,8 +764,8 @@ def am2q(a: np.ndarray, m: np.ndarray, frame: str = 'ENU') -> np.ndarray:
 
     """
     R = am2DCM(a, m, frame=frame)
-    q = dcm2quat(R)
-    return q
+    q = shepperd(R.T)       # Same quaternion as dcm2quat(R), but defined for half-turns too (trace = -1)
+    return -q if q[0] < 0 else q
 
 def acc2q(a: np.ndarray, return_euler: bool = False) -> np.ndarray:
     """
